@@ -137,16 +137,16 @@ type RunRec struct {
 	Listing   []string `json:"listing"`        // wal/snap/checkpoint names found after the death
 	PortRetry int      `json:"port_retry"`
 	StartMs   int64    `json:"start_ms"`
-	LifeMs    int64    `json:"life_ms"` // from the start of the process to (just after) its death
+	LifeMs    int64    `json:"life_ms"`       // from the start of the process to (just after) its death
 	Log       string   `json:"log,omitempty"` // tail of the child's log when the start failed
 	PowerLoss string   `json:"power_loss,omitempty"`
 	// three-replica jobs (the life is one of the follower that is killed)
-	Role      string   `json:"role,omitempty"`        // "follower"
-	Applied   uint64   `json:"applied,omitempty"`     // applied index of the isolated follower when Dump was taken
-	History   []OpRec  `json:"history,omitempty"`     // every write sent to the group before Dump was taken (in order)
-	ConvDump  []string `json:"conv_dump,omitempty"`   // what the follower serves once it has caught up (no write in flight)
-	LeadDump  []string `json:"lead_dump,omitempty"`   // what the leader serves at that moment
-	Converged string   `json:"converged,omitempty"`   // yes | died | timeout ...
+	Role      string   `json:"role,omitempty"`      // "follower"
+	Applied   uint64   `json:"applied,omitempty"`   // applied index of the isolated follower when Dump was taken
+	History   []OpRec  `json:"history,omitempty"`   // every write sent to the group before Dump was taken (in order)
+	ConvDump  []string `json:"conv_dump,omitempty"` // what the follower serves once it has caught up (no write in flight)
+	LeadDump  []string `json:"lead_dump,omitempty"` // what the leader serves at that moment
+	Converged string   `json:"converged,omitempty"` // yes | died | timeout ...
 }
 
 // ---------- key universe and op generator ----------
@@ -527,14 +527,14 @@ func isCutPoint(p string) bool { return strings.HasPrefix(p, "wl.") }
 // ---------- one directory ----------
 
 type dirJob struct {
-	id       int
-	seed     int64
-	engine   string
-	optFsync bool
-	cycles   int
-	opsMax   int
-	specs    []string // forced specs (replay), else generated
-	thorough bool
+	id        int
+	seed      int64
+	engine    string
+	optFsync  bool
+	cycles    int
+	opsMax    int
+	specs     []string // forced specs (replay), else generated
+	thorough  bool
 	snapCount int // raft snapshot every N applied entries (0: 20)
 }
 
@@ -598,6 +598,30 @@ func isEnvFailure(status, tail string) bool {
 		strings.Contains(tail, "too many open files") || strings.Contains(tail, "cannot allocate memory")
 }
 
+// slowStatus: the child was alive, logged no recovery error, and did not get to serve within a budget: on its own
+// this is a slow machine, not a node that cannot recover its data
+func slowStatus(status string) bool {
+	return status == "timeout" || status == "FAIL noleader" || status == "FAIL startraft not ready" || status == "FAIL staleread" ||
+		strings.HasPrefix(status, "FAIL noapi") || strings.HasPrefix(status, "noconnect")
+}
+
+var recoveryErrRe = regexp.MustCompile(`panic: |fatal error: |index out of range|no backup|checkpoint not exist|crc mismatch|wal: file not found|wal: snapshot not found|snap: |failed to restore|failed to recover|corrupt`)
+
+// positiveEvidence: the start failed and there is evidence that the node cannot recover its data: it exited or
+// reported an error of its start (not a slow one), or its log holds a recovery error
+func positiveEvidence(status, tail string) bool {
+	return !slowStatus(status) || recoveryErrRe.MatchString(tail)
+}
+
+func (ch *child) alive() bool {
+	select {
+	case <-ch.exited:
+		return false
+	default:
+		return true
+	}
+}
+
 type live struct {
 	ch    *child
 	c     *rconn
@@ -627,7 +651,8 @@ func startRun(self string, cfg *childCfg, pa *portAlloc, dir string, rec *RunRec
 		default:
 			status = "exited"
 		}
-	case <-time.After(40 * time.Second):
+	case <-time.After(150 * time.Second):
+		// (the child has its own budgets: 90 s for the node, 60 s for the API, counted from the end of its start-up)
 		status = "timeout"
 	}
 	rec.StartMs = time.Since(t0).Milliseconds()
@@ -646,6 +671,15 @@ func startRun(self string, cfg *childCfg, pa *portAlloc, dir string, rec *RunRec
 		rec.Start = "env-failure"
 		rec.Log = tail[len(tail)-min(len(tail), 600):]
 		return lv
+	}
+	if status == "exited" && ch.cmd.ProcessState != nil {
+		// killed by a signal that neither the harness nor a crash point sent (out-of-memory killer ...): the machine
+		if ws, ok := ch.cmd.ProcessState.Sys().(syscall.WaitStatus); ok && ws.Signaled() && ws.Signal() == syscall.SIGKILL {
+			rec.Start = "env-failure"
+			rec.Log = "killed by SIGKILL from outside the harness during its start\n" + tail[len(tail)-min(len(tail), 600):]
+			return lv
+		}
+		status = "exited (" + ch.cmd.ProcessState.String() + ")"
 	}
 	rec.Start = status
 	rec.Log = tail
@@ -717,6 +751,7 @@ func runDir(self string, job dirJob, pa *portAlloc, emit func(RunRec)) {
 	run := 0
 	envFailures := 0
 	slowRetries := 0
+	slowPast := false
 	newRec := func(spec string) *RunRec {
 		return &RunRec{Dir: job.id, Run: run, Engine: job.engine, OptFsync: job.optFsync, Spec: spec, Death: "none"}
 	}
@@ -757,31 +792,58 @@ func runDir(self string, job dirJob, pa *portAlloc, emit func(RunRec)) {
 			run++
 			continue
 		}
+		if rec.Start == "ready" {
+			// the API listener is up when the child says READY; a refused connection is retried while the child lives
+			var c *rconn
+			var err error
+			for dl := time.Now().Add(30 * time.Second); ; {
+				c, err = dial(cfg.Port, 5*time.Second)
+				if err == nil || time.Now().After(dl) || !lv.ch.alive() {
+					break
+				}
+				time.Sleep(50 * time.Millisecond)
+			}
+			if err != nil {
+				rec.Start = "noconnect " + err.Error()
+				if !lv.ch.alive() {
+					rec.Start = "exited after READY (" + err.Error() + ")"
+				}
+				lv.ch.kill()
+				rec.Log = tailFile(lv.ch.logf, 6000)
+			} else {
+				lv.c = c
+			}
+		}
 		if rec.Start != "ready" {
-			// the node did not come back. A start that was merely too slow on a loaded machine (no leader within
-			// the budget, no READY in time) is killed like any other life and tried once more: a node that cannot
-			// recover its data fails again, and that is reported by the oracle
-			if slowRetries < 1 && (rec.Start == "FAIL noleader" || rec.Start == "timeout") {
-				slowRetries++
-				rec.Start = "slow-start"
-				rec.Death = "external"
-				finishRun(dir, lv, rec, emit)
-				run++
-				cyc--
-				continue
+			// the node did not come back. That is a failure of the property only with positive evidence: the process
+			// exited or reported an error of its start, or its log holds a recovery error. A child that was alive,
+			// logged no error and was merely not serving within the (generous) budget is tried once more on fresh
+			// ports; if that is slow again the directory is reported as inconclusive, not as a violation -- unless the
+			// restart itself had finished both times (rc.replay.after logged: alive, past its start-up, refusing to serve)
+			if !positiveEvidence(rec.Start, rec.Log) {
+				evs := tailFile(lv.evlog, 1<<20)
+				past := strings.Contains(evs, "rc.replay.after") || strings.Contains(evs, "rd.begin")
+				if slowRetries < 1 {
+					slowRetries++
+					slowPast = past
+					rec.Start = "slow-start"
+					rec.Death = "external"
+					finishRun(dir, lv, rec, emit)
+					run++
+					cyc--
+					continue
+				}
+				if !(past && slowPast) {
+					rec.Log = "start status: " + rec.Start + "\n" + rec.Log
+					rec.Start = "inconclusive-slow"
+					rec.Death = "external"
+				}
 			}
 			finishRun(dir, lv, rec, emit)
 			return
 		}
 		slowRetries = 0
-		c, err := dial(cfg.Port, 5*time.Second)
-		if err != nil {
-			rec.Start = "noconnect " + err.Error()
-			lv.ch.kill()
-			finishRun(dir, lv, rec, emit)
-			return
-		}
-		lv.c = c
+		c := lv.c
 		alive := markerAndDump(lv, g, rec)
 		if final {
 			c.close()
